@@ -8,6 +8,7 @@ from ..cfg import CFG
 from ..loops import dotted
 from ..nf import NF, Scope, Poly
 from ..repo import Repo, loc, short, AnalysisError, positional_params, param_names
+from ..sem import arg_of, same_ingredients
 
 EXPLANATION = (
     "Round-trip equality is a runtime property and is NOT decided. Decided are necessary conditions, by dataflow rather than by text: "
@@ -21,7 +22,11 @@ EXPLANATION = (
     "reaching definitions and device moves) and load merges the loaded object with the given graphdef on every path to the return. "
     "(R3) both checkpoint writers save the unfiltered module state and wait for completion before publishing the path; restore reads into a "
     "target that is the model's own state structure (an untargeted restore returns string-keyed dicts whose leaf order is the sorted key "
-    "order: '10' < '2') and merges the model's graphdef with nothing but the restored state."
+    "order: '10' < '2') and merges the model's graphdef with nothing but the restored state. "
+    "Evidence discipline: a violation is reported only for a value that was read completely and is something else (a filtered / foreign state, the graphdef, "
+    "the raw loaded object, a path witness, the write cursor as slice bound, a write to an attribute that methods accumulate into or take from outside); "
+    "aliases, keywords, module constants, helpers and base-class methods are followed, and what cannot be read (unknown provenance, other spellings, "
+    "hand-written restores, unexpanded callees) leaves the rule group undecided."
 )
 TRUSTED = ["pickle round-trips plain attributes (ints, numpy arrays, OrderedDict, PriorityBuffer objects)", "nnx.split / nnx.merge are inverse for a given graphdef", "Orbax StandardCheckpointer.save / restore(path, target) are inverse for a given target structure"]
 RULES = {
@@ -33,7 +38,17 @@ RULES = {
 RB = "rl_blox.blox.replay_buffer."
 MODQ = "rl_blox.blox.replay_buffer"
 DYN_CTORS = ("namedtuple", "collections.namedtuple", "type", "dataclasses.make_dataclass", "make_dataclass")
-COPY_FORMS = ("dict(self.__dict__)", "self.__dict__.copy()", "{**self.__dict__}", "copy.copy(self.__dict__)", "copy(self.__dict__)", "dict(vars(self))", "vars(self).copy()")
+COPY_FORMS = ("dict(self.__dict__)", "self.__dict__.copy()", "{**self.__dict__}", "copy.copy(self.__dict__)", "copy(self.__dict__)", "dict(vars(self))", "vars(self).copy()", "{**vars(self)}", "copy.copy(vars(self))",
+              "copy(vars(self))", "dict(**self.__dict__)", "dict(**vars(self))", "dict(self.__dict__.items())", "dict(vars(self).items())")
+NT_DEFAULTS = {"rename": False, "defaults": None, "module": None}     # keyword-only options of collections.namedtuple at their defaults
+IDENTITY_WRAPPERS = ("np.asarray", "numpy.asarray", "copy.copy", "copy.deepcopy", "copy", "deepcopy")
+
+
+def _need_self(fn, what):
+    """The rules read `self.<attr>` by name: a method whose instance parameter is called differently is not read."""
+    pp = positional_params(fn)
+    if not pp or pp[0] != "self":
+        raise AnalysisError(f"{what}: the instance parameter is not named `self` (unrecognised form)")
 
 
 # ---------------------------------------------------------------------------------------------------------------------------
@@ -44,6 +59,7 @@ def _init_attr_values(repo, cq):
         m = repo.method(c, "__init__", inherited=False)
         if not m:
             continue
+        _need_self(m[1], f"{c}.__init__")
         # single-assignment locals (temporaries of expanded helpers) are read with their value
         stores = {}
         for n in ast.walk(m[1]):
@@ -76,21 +92,84 @@ def _init_attr_values(repo, cq):
 
 
 def _unwrap_iter(v):
-    """namedtuple("T", list(d)) == namedtuple("T", tuple(d)) == namedtuple("T", d): the field names are the iteration order of d."""
-    import copy
+    """namedtuple("T", list(d)) == namedtuple("T", tuple(d)) == namedtuple("T", d) == namedtuple(typename="T", field_names=d.keys()): the field names
+    are the iteration order of d; keywords are bound by the signature of collections.namedtuple, options at their defaults are dropped."""
     v = clone(v)
+    if isinstance(v, ast.Call) and dotted(v.func) in ("namedtuple", "collections.namedtuple") and not any(isinstance(a, ast.Starred) for a in v.args) and all(k.arg for k in v.keywords):
+        kws = {k.arg: k.value for k in v.keywords}
+        for i_, nm in enumerate(("typename", "field_names")):
+            if len(v.args) == i_ and nm in kws:
+                v.args.append(kws.pop(nm))
+        kws = {k: x for k, x in kws.items() if not (k in NT_DEFAULTS and isinstance(x, ast.Constant) and x.value is NT_DEFAULTS[k])}
+        v.keywords = [ast.keyword(arg=k, value=kws[k]) for k in sorted(kws)]
     if isinstance(v, ast.Call) and dotted(v.func) in DYN_CTORS and len(v.args) >= 2:
         a = v.args[1]
         while isinstance(a, ast.Call) and dotted(a.func) in ("list", "tuple") and len(a.args) == 1 and not a.keywords:
             a = a.args[0]
-        if isinstance(a, ast.Call) and isinstance(a.func, ast.Attribute) and a.func.attr == "keys" and not a.args:
+        if isinstance(a, ast.Call) and isinstance(a.func, ast.Attribute) and a.func.attr == "keys" and not a.args and not a.keywords:
             a = a.func.value
         v.args[1] = a
-    return v
+    return ast.fix_missing_locations(v)
 
 
 def _is_dynamic_class(v):
-    return (isinstance(v, ast.Call) and dotted(v.func) in DYN_CTORS) or isinstance(v, ast.Lambda)
+    if isinstance(v, ast.Lambda):
+        return True
+    if isinstance(v, ast.Call) and dotted(v.func) in DYN_CTORS:
+        # type(x) with one argument looks a class up, only the three-argument form creates one
+        return dotted(v.func) != "type" or len(v.args) + len(v.keywords) == 3
+    return False
+
+
+LOG_METHODS = ("debug", "info", "warning", "warn", "error", "exception", "critical", "log")
+MUTATORS = ("pop", "popitem", "update", "clear", "setdefault", "append", "extend", "insert", "remove", "add", "discard", "sort", "reverse", "fill", "resize", "put", "itemset", "setflags", "__setitem__", "__delitem__", "move_to_end")
+
+
+def _is_logging(mi, x):
+    """Statement x only reports: a call of a method of a module-level `logging.getLogger(..)` object, of `logging.<level>` or `warnings.warn`, (possibly
+    under `if <logger>.isEnabledFor(..)`) whose arguments call no mutating method.  What is formatted is read, not changed."""
+    if isinstance(x, ast.If) and not x.orelse and isinstance(x.test, ast.Call) and isinstance(x.test.func, ast.Attribute) and x.test.func.attr == "isEnabledFor" and _is_logger(mi, x.test.func.value):
+        return all(_is_logging(mi, y) for y in x.body)
+    if not (isinstance(x, ast.Expr) and isinstance(x.value, ast.Call)):
+        return False
+    c = x.value
+    f = dotted(c.func)
+    if not ((isinstance(c.func, ast.Attribute) and c.func.attr in LOG_METHODS and _is_logger(mi, c.func.value)) or f == "warnings.warn"):
+        return False
+    for a in list(c.args) + [k.value for k in c.keywords]:
+        for n in ast.walk(a):
+            if isinstance(n, ast.Call) and isinstance(n.func, ast.Attribute) and n.func.attr in MUTATORS:
+                return False
+            if isinstance(n, (ast.NamedExpr, ast.Await, ast.Yield, ast.YieldFrom)):
+                return False
+    return True
+
+
+def _is_logger(mi, e):
+    if dotted(e) == "logging" and mi.imports.get("logging") == "logging":
+        return True
+    if isinstance(e, ast.Name):
+        d = mi.defs.get(e.id)
+        v = getattr(d, "value", None) if isinstance(d, (ast.Assign, ast.AnnAssign)) else None
+        return isinstance(v, ast.Call) and dotted(v.func) in ("logging.getLogger", "getLogger") and mi.imports.get(dotted(v.func).split(".")[0], "").split(".")[0] == "logging"
+    return False
+
+
+def _bare_name(e, name):
+    """`name` occurs in e other than as the object of an attribute access (the whole object is handed on)."""
+    inner = {id(n.value) for n in ast.walk(e) if isinstance(n, ast.Attribute)}
+    return any(isinstance(n, ast.Name) and n.id == name and id(n) not in inner for n in ast.walk(e))
+
+
+def _strip_identity(v):
+    """np.asarray(x) / copy.copy(x) / x.copy(): the same value as x."""
+    while True:
+        if isinstance(v, ast.Call) and dotted(v.func) in IDENTITY_WRAPPERS and len(v.args) == 1 and not v.keywords:
+            v = v.args[0]
+        elif isinstance(v, ast.Call) and isinstance(v.func, ast.Attribute) and v.func.attr == "copy" and not v.args and not v.keywords:
+            v = v.func.value
+        else:
+            return v
 
 
 def _attr_types(repo, cq):
@@ -164,10 +243,58 @@ def _is_lazy_cache(repo, cq, attr):
                     n_sites += 1
                     if isinstance(s, ast.Assign) and isinstance(s.value, ast.Constant) and s.value.value is None and t is base:
                         continue
-                    guarded = any(cfg.nodes[b].kind == "test" and lab is True and ast.unparse(cfg.nodes[b].ast.test) == f"self.{attr} is None" for b, lab in cfg.control_deps(node.id))
+                    guarded = any(cfg.nodes[b].kind == "test" and _none_test(getattr(cfg.nodes[b].ast, "test", None), attr) is not None and lab is _none_test(cfg.nodes[b].ast.test, attr) for b, lab in cfg.control_deps(node.id))
                     if not guarded:
                         return False
     return n_sites > 0
+
+
+def _none_test(t, attr):
+    """True / False: the branch label of test `t` on which `self.<attr> is None` holds (`self.a is None` -> True, `self.a is not None` -> False); None: another test."""
+    if isinstance(t, ast.UnaryOp) and isinstance(t.op, ast.Not):
+        r = _none_test(t.operand, attr)
+        return None if r is None else (not r)
+    if isinstance(t, ast.Compare) and len(t.ops) == 1 and isinstance(t.ops[0], (ast.Is, ast.IsNot, ast.Eq, ast.NotEq)):
+        a, b = t.left, t.comparators[0]
+        if isinstance(a, ast.Constant) and a.value is None:
+            a, b = b, a
+        if dotted(a) == f"self.{attr}" and isinstance(b, ast.Constant) and b.value is None:
+            return isinstance(t.ops[0], (ast.Is, ast.Eq))
+    return None
+
+
+def _state_evidence(repo, cq, attr):
+    """Positive evidence that `self.<attr>` is state only the history of the object determines (not a value derivable from the other attributes):
+    some method accumulates into it (augmented assignment, a new value that reads the old one), stores into its elements, or sets it from one of
+    its own parameters (a value given from outside)."""
+    for c in repo.mro(cq) + [s_ for s_ in repo.subclasses(cq)]:
+        for meth in repo.cls(c).body:
+            if not isinstance(meth, ast.FunctionDef) or meth.name == "__setstate__":
+                continue
+            params = set(param_names(meth)) - {"self"}
+            for s in ast.walk(meth):
+                if isinstance(s, ast.Assign):
+                    tgs, val, aug = s.targets, s.value, False
+                elif isinstance(s, ast.AugAssign):
+                    tgs, val, aug = [s.target], s.value, True
+                elif isinstance(s, ast.AnnAssign) and s.value is not None:
+                    tgs, val, aug = [s.target], s.value, False
+                else:
+                    continue
+                for t in tgs:
+                    for tt in (t.elts if isinstance(t, (ast.Tuple, ast.List)) else [t]):
+                        base, sub = tt, False
+                        while isinstance(base, ast.Subscript):
+                            base, sub = base.value, True
+                        if dotted(base) != f"self.{attr}":
+                            continue
+                        if aug or sub:
+                            return True
+                        if {n.id for n in ast.walk(val) if isinstance(n, ast.Name)} & params:
+                            return True
+                        if any(isinstance(n, ast.Attribute) and dotted(n) == f"self.{attr}" for n in ast.walk(val)):
+                            return True
+    return False
 
 
 def _slice_bounds(repo, mi, e, params=None, depth=0):
@@ -222,15 +349,68 @@ def _const_names(repo, cq, e):
     return None
 
 
+def _key(mi, e):
+    """The string a dict key expression denotes: a literal or a module-level string constant; else None."""
+    if isinstance(e, ast.Constant) and isinstance(e.value, str):
+        return e.value
+    if isinstance(e, ast.Name):
+        d = mi.defs.get(e.id)
+        v = getattr(d, "value", None) if isinstance(d, (ast.Assign, ast.AnnAssign)) else None
+        if isinstance(v, ast.Constant) and isinstance(v.value, str):
+            return v.value
+    return None
+
+
+def _filtered_copy(repo, cq, mi, e):
+    """Keys left out by `{k: v for k, v in self.__dict__.items() if k != "A" and k not in ("B", ..)}` (a copy of the instance dict without them); None for anything else."""
+    if not (isinstance(e, ast.DictComp) and len(e.generators) == 1 and not e.generators[0].is_async):
+        return None
+    gen = e.generators[0]
+    if not (isinstance(gen.target, ast.Tuple) and len(gen.target.elts) == 2 and all(isinstance(t, ast.Name) for t in gen.target.elts)):
+        return None
+    kn, vn = gen.target.elts[0].id, gen.target.elts[1].id
+    if not (isinstance(e.key, ast.Name) and e.key.id == kn and isinstance(e.value, ast.Name) and e.value.id == vn and kn != vn):
+        return None
+    if ast.unparse(gen.iter) not in ("self.__dict__.items()", "vars(self).items()"):
+        return None
+    out = []
+    tests = []
+    for t in gen.ifs:
+        tests += t.values if isinstance(t, ast.BoolOp) and isinstance(t.op, ast.And) else [t]
+    for t in tests:
+        if not (isinstance(t, ast.Compare) and len(t.ops) == 1 and isinstance(t.left, ast.Name) and t.left.id == kn):
+            return None
+        c = t.comparators[0]
+        if isinstance(t.ops[0], ast.NotEq) and _key(mi, c) is not None:
+            out.append(_key(mi, c))
+        elif isinstance(t.ops[0], ast.NotIn) and isinstance(c, (ast.Tuple, ast.List, ast.Set)) and all(_key(mi, x) is not None for x in c.elts):
+            out += [_key(mi, x) for x in c.elts]
+        elif isinstance(t.ops[0], ast.NotIn) and _const_names(repo, cq, c) is not None:
+            out += _const_names(repo, cq, c)
+        else:
+            return None
+    return out
+
+
 def _getstate(ck, repo, nf, cq, gq, g, init_vals):
     """Analyse one __getstate__; returns (removed keys, transformed keys) or raises AnalysisError on an unrecognised idiom."""
     gmi = repo.cls(gq)._module
     site = cq
+    _need_self(g, f"{gq}.__getstate__")
     body = [x for x in g.body if not (isinstance(x, ast.Expr) and isinstance(x.value, ast.Constant))]
     rets = [x for x in ast.walk(g) if isinstance(x, ast.Return)]
-    ck.need(len(rets) == 1 and isinstance(rets[0].value, ast.Name), f"{gq}.__getstate__: expected a single `return <dict name>` (unrecognised idiom)")
-    dn = rets[0].value.id
-    defs = [x for x in body if isinstance(x, ast.Assign) and dotted(x.targets[0]) == dn]
+    ck.need(len(rets) == 1 and isinstance(rets[0].value, (ast.Name, ast.DictComp)), f"{gq}.__getstate__: expected a single `return <dict name>` (unrecognised idiom)")
+    removed, transformed = [], {}
+    if isinstance(rets[0].value, ast.DictComp):
+        # `return {k: v for k, v in self.__dict__.items() if k != "Batch"}`: a copy without the named keys
+        fc = _filtered_copy(repo, cq, gmi, rets[0].value)
+        ck.need(fc is not None and rets[0] is body[-1], f"{gq}.__getstate__: `{short(rets[0], 70)}` (unrecognised idiom)")
+        removed += fc
+        dn = "<returned dict>"
+        defs = [rets[0]]
+    else:
+        dn = rets[0].value.id
+        defs = [x for x in body if isinstance(x, ast.Assign) and dotted(x.targets[0]) == dn]
     # `ret = state; return ret`: the returned name is an alias of the dict that was built
     alias_stmts = []
     for _ in range(3):
@@ -245,19 +425,24 @@ def _getstate(ck, repo, nf, cq, gq, g, init_vals):
     src = ast.unparse(defs[0].value)
     is_copy = src in COPY_FORMS
     live = src in ("self.__dict__", "vars(self)")
+    if isinstance(defs[0].value, ast.DictComp):
+        fc = _filtered_copy(repo, cq, gmi, defs[0].value)
+        if fc is not None:
+            is_copy = True
+            removed += [k_ for k_ in fc if k_ not in removed]
     ck.need(is_copy or live, f"{gq}.__getstate__: `{dn} = {src}` is neither a copy of the instance dict nor the dict itself (unrecognised idiom)")
-    ck.ob("R1-pickling-symmetry", site, "copies-dict", is_copy, f"{dn} = {src}", "" if is_copy else "__getstate__ edits the live instance dict: saving removes attributes from the object that keeps being used", loc(gmi, defs[0]))
-    removed, transformed = [], {}
     for x in body:
         if x is defs[0] or isinstance(x, ast.Return):
             continue
         if isinstance(x, ast.Delete):
             for t in x.targets:
-                ck.need(isinstance(t, ast.Subscript) and dotted(t.value) == dn and isinstance(t.slice, ast.Constant), f"{gq}.__getstate__: `{short(x)}` (unrecognised idiom)")
-                removed.append(t.slice.value)
+                ck.need(isinstance(t, ast.Subscript) and dotted(t.value) == dn and _key(gmi, t.slice) is not None, f"{gq}.__getstate__: `{short(x)}` (unrecognised idiom)")
+                removed.append(_key(gmi, t.slice))
         elif isinstance(x, ast.Expr) and isinstance(x.value, ast.Call) and isinstance(x.value.func, ast.Attribute) and dotted(x.value.func.value) == dn and x.value.func.attr == "pop" \
-                and x.value.args and isinstance(x.value.args[0], ast.Constant):
-            removed.append(x.value.args[0].value)
+                and x.value.args and _key(gmi, x.value.args[0]) is not None:
+            if len(x.value.args) > 1 and _key(gmi, x.value.args[0]) not in init_vals:
+                continue    # d.pop("name", default) of a key no constructor sets: nothing is removed
+            removed.append(_key(gmi, x.value.args[0]))
         elif isinstance(x, ast.Assign) and isinstance(x.targets[0], ast.Subscript) and dotted(x.targets[0].value) == dn and isinstance(x.targets[0].slice, ast.Constant):
             transformed[x.targets[0].slice.value] = x.value
         elif isinstance(x, ast.For) and isinstance(x.target, ast.Name) and not x.orelse and len(x.body) == 1 and _const_names(repo, cq, x.iter) is not None \
@@ -267,20 +452,33 @@ def _getstate(ck, repo, nf, cq, gq, g, init_vals):
                          and dotted(x.body[0].value.func.value) == dn and x.body[0].value.args and isinstance(x.body[0].value.args[0], ast.Name) and x.body[0].value.args[0].id == x.target.id)):
             # `for k in <constant tuple of names>: del d[k]`
             removed += _const_names(repo, cq, x.iter)
+        elif _is_logging(gmi, x):
+            continue
         else:
             names = {n.id for n in ast.walk(x) if isinstance(n, ast.Name)}
             if dn in names or any(isinstance(n, ast.Attribute) and dotted(n) and dotted(n).startswith("self.") for n in ast.walk(x) if isinstance(getattr(n, "ctx", None), ast.Store)):
                 raise AnalysisError(f"{gq}.__getstate__: `{short(x, 70)}` manipulates the pickled state in a way this check does not model")
+    # a dict that is only an alias of the live one: evidence of a difference only when something is then removed from it / replaced in it
+    edits = bool(removed) or any(ast.unparse(v_) != f"self.{k_}" for k_, v_ in transformed.items())
+    if is_copy or edits:
+        ck.ob("R1-pickling-symmetry", site, "copies-dict", is_copy, f"{dn} = {src}", "" if is_copy else "__getstate__ edits the live instance dict: saving removes attributes from the object that keeps being used", loc(gmi, defs[0]))
     # unpicklable attributes must be removed
     dyn = sorted(a for a, (v, _) in init_vals.items() if _is_dynamic_class(v))
-    miss = sorted(set(dyn) - set(removed))
+    # (a key whose value __getstate__ replaces is judged with the replacement below, not here)
+    miss = sorted(set(dyn) - set(removed) - {k_ for k_, v_ in transformed.items() if ast.unparse(v_) != f"self.{k_}"})
     ck.ob("R1-pickling-symmetry", site, "unpicklable-removed", not miss, f"__getstate__ removes {sorted(removed)}; dynamically created classes / lambdas: {dyn}", "" if not miss else f"`{miss}` holds a dynamically created class and stays in the pickled state: pickling fails", loc(gmi, g))
     # entries added under a new key (a packed record): every ordinary attribute that was removed must at least be an input of one of
     # them - what is not handed to the packing code cannot be in the pickled state, and nothing can bring it back on reload
     added = {k: v for k, v in transformed.items() if k not in init_vals}
     if added:
         inputs = {dotted(n)[5:].split(".")[0] for v in added.values() for n in ast.walk(v) if isinstance(n, ast.Attribute) and dotted(n) and dotted(n).startswith("self.")}
-        whole = any(isinstance(n, ast.Name) and n.id == "self" and not isinstance(getattr(n, "_parent", None), ast.Attribute) for v in added.values() for n in ast.walk(v))
+        whole = any(_bare_name(v, "self") for v in added.values())
+        # the packed value is not read completely: it goes through a method of the object (which sees every attribute) or through a local
+        # of __getstate__ whose value this rule does not follow
+        locals_ = {n.id for n in ast.walk(g) if isinstance(n, ast.Name) and isinstance(n.ctx, ast.Store)} - {dn} \
+            - {n.id for v in added.values() for n in ast.walk(v) if isinstance(n, ast.Name) and isinstance(n.ctx, ast.Store)}
+        whole = whole or any(isinstance(n, ast.Call) and isinstance(n.func, ast.Attribute) and dotted(n.func.value) == "self" for v in added.values() for n in ast.walk(v)) \
+            or any(isinstance(n, ast.Name) and (n.id in locals_ or n.id == dn) for v in added.values() for n in ast.walk(v)) or "__dict__" in inputs
         for a in sorted(set(removed)):
             if a in init_vals and not _is_dynamic_class(init_vals[a][0]) and not whole:
                 ok_in = a in inputs
@@ -293,9 +491,11 @@ def _getstate(ck, repo, nf, cq, gq, g, init_vals):
         bounds = _slice_bounds(repo, gmi, v)
         sc = Scope(None, gmi, {}, gq)
         btxt = [nf.poly(b, sc, None).canon() for b in bounds]
-        fill = {"self.current_len", "len(self)", "self.buffer_size"}
-        bad = [b for b in btxt if b not in fill and "insert_idx" in b]
-        if bad:
+        # evidence: the bound is the write cursor itself (normal form), not merely an expression in which the cursor occurs
+        # and what is cut is the stored attribute itself (the value put under its own key is computed from it)
+        bad = [b for b in btxt if b == "self.insert_idx"]
+        reads_own = k in init_vals and any(isinstance(n_, ast.Attribute) and dotted(n_) == f"self.{k}" for n_ in ast.walk(v))
+        if bad and reads_own:
             ck.ob("R1-pickling-symmetry", site, f"transformed:{k}", False, f"d['{k}'] = {short(v, 70)} truncates at {bad}",
                   f"the pickled `{k}` is cut at the write cursor: once the ring has wrapped (insert_idx < current_len) the valid rows behind the cursor are not saved and reload as uninitialised memory", loc(gmi, v))
         else:
@@ -304,12 +504,17 @@ def _getstate(ck, repo, nf, cq, gq, g, init_vals):
 
 
 def _setstate_chain(repo, cq):
-    """Statements of __setstate__ with super().__setstate__(d) calls expanded, each tagged with its defining class."""
+    """Statements of __setstate__ with super().__setstate__(d) / Base.__setstate__(self, d) calls expanded, each tagged with its defining class."""
     out = []
 
-    def walk(c, after):
-        m = repo.method(c, "__setstate__") if after is None else None
-        if after is not None:
+    def walk(c, after, start=None, depth=0):
+        if depth > 8:
+            raise AnalysisError(f"{c}.__setstate__: chain of base-class calls too deep (unrecognised form)")
+        if start is not None:
+            m = repo.method(start, "__setstate__")
+        elif after is None:
+            m = repo.method(c, "__setstate__")
+        else:
             mro = repo.mro(c)
             m = None
             for p in mro[mro.index(after) + 1:]:
@@ -319,15 +524,52 @@ def _setstate_chain(repo, cq):
         if m is None:
             raise AnalysisError(f"{c}.__setstate__: super().__setstate__ has no target")
         owner, fn = m[0], m[1]
+        omi = repo.cls(owner)._module
         for x in fn.body:
             if isinstance(x, ast.Expr) and isinstance(x.value, ast.Constant):
                 continue
-            if isinstance(x, ast.Expr) and isinstance(x.value, ast.Call) and ast.unparse(x.value.func) == "super().__setstate__":
-                walk(c, owner)
-            else:
-                out.append((owner, fn, x))
+            call = x.value if isinstance(x, ast.Expr) and isinstance(x.value, ast.Call) else None
+            if call is not None and isinstance(call.func, ast.Attribute) and call.func.attr == "__setstate__":
+                recv = call.func.value
+                if isinstance(recv, ast.Call) and dotted(recv.func) == "super" and not recv.keywords and (not recv.args or (len(recv.args) == 2 and dotted(recv.args[1]) == "self")):
+                    if recv.args:
+                        # super(K, self): continue behind K in the MRO of the analysed class
+                        k = repo.resolve_expr(omi, recv.args[0])
+                        if k is None or k not in repo.mro(c):
+                            raise AnalysisError(f"{owner}.__setstate__: `{short(x, 60)}` (unrecognised form)")
+                        walk(c, k, None, depth + 1)
+                    else:
+                        walk(c, owner, None, depth + 1)
+                    continue
+                k = repo.resolve_expr(omi, recv) if dotted(recv) else None
+                if k is not None and k in repo.mro(c) and call.args and dotted(call.args[0]) == "self":
+                    walk(c, None, k, depth + 1)      # Base.__setstate__(self, d)
+                    continue
+                raise AnalysisError(f"{owner}.__setstate__: `{short(x, 60)}` (unrecognised form)")
+            out.append((owner, fn, x))
     walk(cq, None)
     return out
+
+
+def _restore_form(x, dparam):
+    """'update' / 'assign' when statement x puts the pickled dict (parameter `dparam`) back into the instance dict, else None."""
+    def inst_dict(e):
+        return dotted(e) == "self.__dict__" or (isinstance(e, ast.Call) and dotted(e.func) == "vars" and len(e.args) == 1 and not e.keywords and dotted(e.args[0]) == "self")
+
+    def is_d(e):
+        return isinstance(e, ast.Name) and e.id == dparam
+    if isinstance(x, ast.Expr) and isinstance(x.value, ast.Call) and isinstance(x.value.func, ast.Attribute) and x.value.func.attr == "update" and inst_dict(x.value.func.value):
+        c = x.value
+        if len(c.args) == 1 and not c.keywords and is_d(c.args[0]):
+            return "update"
+        if not c.args and len(c.keywords) == 1 and c.keywords[0].arg is None and is_d(c.keywords[0].value):
+            return "update"
+        return None
+    if isinstance(x, ast.AugAssign) and isinstance(x.op, ast.BitOr) and inst_dict(x.target) and is_d(x.value):
+        return "update"
+    if isinstance(x, ast.Assign) and len(x.targets) == 1 and dotted(x.targets[0]) == "self.__dict__" and is_d(x.value):
+        return "assign"
+    return None
 
 
 def r1_buffers(ck, repo, nf):
@@ -344,9 +586,21 @@ def r1_buffers(ck, repo, nf):
         if not init_vals and repo.subclasses(cq):
             return     # a mixin without constructor: its state pair is judged in the classes that inherit it
         if gs is None and ss is None:
+            if dyn:
+                # the default protocol is replaced when the class reduces itself in another way
+                other = [n_ for n_ in ("__reduce__", "__reduce_ex__", "__getnewargs__", "__getnewargs_ex__", "__copyreg__") if repo.method(cq, n_)]
+                ck.need(not other, f"{cq}: pickled through {other} (unrecognised form)")
             ck.ob("R1-pickling-symmetry", cq, "default-pickling-ok", not dyn, f"dynamic-class / lambda attributes: {dyn}", "" if not dyn else "a class pickled by default holds an unpicklable attribute", loc(mi, cls))
             return
         ok = gs is not None and ss is not None
+        if not ok:
+            # half a pair is evidence of a difference only together with what the present half does: a __getstate__ that removes attributes which
+            # the default __setstate__ cannot bring back, or a default __getstate__ that meets an unpicklable attribute
+            if gs is not None:
+                removed_, transformed_ = _getstate(ck, repo, nf, cq, gs[0], gs[1], init_vals)
+                ck.need(bool(removed_), f"{cq}: __getstate__ without __setstate__ and nothing is removed from the pickled state (unrecognised form)")
+            else:
+                ck.need(bool(dyn), f"{cq}: __setstate__ without __getstate__ and no unpicklable attribute (unrecognised form)")
         ck.ob("R1-pickling-symmetry", cq, "has-state-pair", ok, f"__getstate__ {'from ' + gs[0].rsplit('.', 1)[1] if gs else 'missing'}; __setstate__ {'from ' + ss[0].rsplit('.', 1)[1] if ss else 'missing'}",
               "" if ok else "__getstate__ and __setstate__ must come as a pair", loc(mi, cls))
         if not ok:
@@ -355,50 +609,85 @@ def r1_buffers(ck, repo, nf):
         removed, transformed = _getstate(ck, repo, nf, cq, gs[0], gs[1], init_vals)
         # ---- __setstate__ ----
         chain = _setstate_chain(repo, cq)
-        restored_at = None
+        restored_at, restored_how = None, None
         rebuilt = {}
-        temps = {}
+        temps, temp_reads_self_at = {}, {}
+        dparams = set()
+        called_writes = set()     # attributes written by methods that __setstate__ calls (not read as rebuilding assignments)
 
         class _Sub(ast.NodeTransformer):
+            used = None
+
             def visit_Name(self_inner, n):
                 if isinstance(n.ctx, ast.Load) and n.id in temps:
-                    import copy as _copy
-                    return _copy.deepcopy(temps[n.id])
+                    if self_inner.used is not None:
+                        self_inner.used.add(n.id)
+                    return clone(temps[n.id])
                 return n
+
+        def names_of(e):
+            return {n_.id for n_ in ast.walk(e) if isinstance(n_, ast.Name)}
         for i, (owner, fn, x) in enumerate(chain):
             omi = repo.cls(owner)._module
-            pps_ = [p_ for p_ in positional_params(fn) if p_ != "self"]
-            if isinstance(x, ast.Assign) and len(x.targets) == 1 and isinstance(x.targets[0], ast.Name) and x.targets[0].id not in pps_ \
-                    and not any(isinstance(c_, ast.Call) and isinstance(c_.func, ast.Attribute) and c_.func.attr in ("pop", "update", "clear", "setdefault") for c_ in ast.walk(x.value)):
+            _need_self(fn, f"{owner}.__setstate__")
+            pps = [p_ for p_ in positional_params(fn) if p_ != "self"]
+            ck.need(len(pps) >= 1, f"{owner}.__setstate__: no parameter for the pickled state (unrecognised form)")
+            dparam = pps[0]
+            dparams.add(dparam)
+            if isinstance(x, (ast.Assert, ast.Pass)) or _is_logging(omi, x):
+                continue      # reads only
+            eff_i = i
+            if isinstance(x, ast.Assign) and len(x.targets) == 1 and isinstance(x.targets[0], ast.Name) and x.targets[0].id not in pps \
+                    and not any(isinstance(c_, ast.Call) and isinstance(c_.func, ast.Attribute) and c_.func.attr in ("pop", "update", "clear", "setdefault", "popitem") for c_ in ast.walk(x.value)):
                 # a local temporary (of an expanded helper): later uses are read with its value
-                import copy as _copy
-                temps[x.targets[0].id] = _Sub().visit(_copy.deepcopy(x.value))
+                sub = _Sub()
+                sub.used = set()
+                temps[x.targets[0].id] = sub.visit(clone(x.value))
+                at_ = min([temp_reads_self_at[u_] for u_ in sub.used if u_ in temp_reads_self_at] + ([i] if "self" in names_of(x.value) else []), default=None)
+                if at_ is not None:
+                    temp_reads_self_at[x.targets[0].id] = at_
+                else:
+                    temp_reads_self_at.pop(x.targets[0].id, None)
                 continue
             if temps:
-                import copy as _copy
-                x2 = _Sub().visit(_copy.deepcopy(x))
+                sub = _Sub()
+                sub.used = set()
+                x2 = sub.visit(clone(x))
                 ast.copy_location(x2, x)
                 ast.fix_missing_locations(x2)
                 x = x2
-            txt = ast.unparse(x)
-            pps = [p_ for p_ in positional_params(fn) if p_ != "self"]
-            dparam = pps[0] if pps else "d"
-            if txt in (f"self.__dict__.update({dparam})", f"self.__dict__ = {dparam}", f"vars(self).update({dparam})"):
-                restored_at = i if restored_at is None else restored_at
+                # a temporary that reads the object was evaluated where it was assigned, not where it is used
+                eff_i = min([i] + [temp_reads_self_at[u_] for u_ in sub.used if u_ in temp_reads_self_at])
+            if isinstance(x, ast.Expr) and isinstance(x.value, ast.Call) and not (names_of(x) & ({"self"} | dparams)):
+                continue      # logging / warnings: neither the object nor the pickled state is involved
+            how = _restore_form(x, dparam)
+            if how is not None:
+                if restored_at is None:
+                    restored_at, restored_how = i, how
                 continue
             if isinstance(x, ast.Assign) and len(x.targets) == 1 and isinstance(x.targets[0], ast.Attribute) and dotted(x.targets[0].value) == "self":
                 a = x.targets[0].attr
-                rebuilt[a] = (x.value, omi, i, x)
+                if names_of(x.value) & dparams:
+                    raise AnalysisError(f"{owner}.__setstate__: `{short(x, 60)}` restores an attribute from the pickled state by hand (unrecognised form)")
+                rebuilt[a] = (x.value, omi, eff_i, x)
                 continue
             if isinstance(x, ast.Expr) and isinstance(x.value, ast.Call) and isinstance(x.value.func, ast.Attribute) and dotted(x.value.func.value) and (dotted(x.value.func.value) == "self" or dotted(x.value.func.value).startswith("self.")):
                 recv = dotted(x.value.func.value)
+                call_args = list(x.value.args) + [k_.value for k_ in x.value.keywords]
+                if any((names_of(a_) & dparams) or _bare_name(a_, "self") for a_ in call_args):
+                    raise AnalysisError(f"{owner}.__setstate__: `{short(x, 60)}` hands the pickled state / the object to a method that was not expanded (unrecognised form)")
                 if recv == "self":
                     ws = _write_set(repo, cq, x.value.func.attr)
                 else:
                     types = _attr_types(repo, cq)
                     ck.need(recv.count(".") == 1 and recv[5:] in types, f"{owner}.__setstate__: cannot resolve `{recv}` (unrecognised idiom)")
                     ws = {recv[5:] + "." + w for w in _write_set(repo, types[recv[5:]], x.value.func.attr)}
+                roots = {w.split(".")[0] for w in ws}
+                ck.need("__dict__" not in roots, f"{owner}.__setstate__: `{short(x, 60)}` writes the instance dict in a method that was not expanded (unrecognised form)")
+                called_writes |= roots
                 ws = {w for w in ws if w.split(".")[0] not in removed and not _is_lazy_cache(repo, cq, w.split(".")[0])}
+                if ws and not any(_state_evidence(repo, cq, w.split(".")[0]) for w in ws):
+                    raise AnalysisError(f"{owner}.__setstate__: `{short(x, 60)}` writes {sorted(ws)}: neither a lazily recomputed cache nor recognisably state of the buffer (unrecognised form)")
                 ck.ob("R1-pickling-symmetry", cq, f"setstate-call:{short(x.value.func, 40)}", not ws, f"`{short(x, 60)}` writes {sorted(ws) if ws else 'nothing that was pickled'}",
                       "" if not ws else f"__setstate__ recomputes {sorted(ws)} after restoring it: the reloaded object differs from the saved one (e.g. a running maximum replaced by the current maximum) and evolves differently",
                       loc(omi, x))
@@ -406,8 +695,20 @@ def r1_buffers(ck, repo, nf):
             raise AnalysisError(f"{owner}.__setstate__: `{short(x, 70)}` (unrecognised idiom)")
         ck.ob("R1-pickling-symmetry", cq, "restores-dict", restored_at is not None, "self.__dict__.update(d)" if restored_at is not None else "no restoration of the pickled attributes",
               "" if restored_at is not None else "__setstate__ must restore the pickled attributes", loc(repo.cls(ss[0])._module, ss[1]))
+
+        def in_order(v, i):
+            """The rebuilding assignment sees the restored attributes (or does not need them)."""
+            if restored_at is None:
+                return False
+            if i > restored_at:
+                return True
+            if restored_how == "assign":
+                return False      # self.__dict__ = d afterwards drops what was assigned before
+            return "self" not in names_of(v)
         for a in removed:
             if a not in rebuilt:
+                ck.need(a not in called_writes, f"{cq}: `{a}` is removed by __getstate__ and written by a method __setstate__ calls, which is not read as a rebuilding assignment (unrecognised form)")
+                ck.need(a in init_vals, f"{cq}: `{a}` is removed by __getstate__ but no constructor sets it (unrecognised form)")
                 derived = a in init_vals and _is_dynamic_class(init_vals[a][0])
                 ck.ob("R1-pickling-symmetry", cq, f"rebuilt:{a}", False, f"`{a}` is removed by __getstate__ and not rebuilt",
                       f"`{a}` is {'needed by sample_batch' if derived else 'ordinary data'} and is missing after reload", loc(repo.cls(ss[0])._module, ss[1]))
@@ -416,28 +717,38 @@ def r1_buffers(ck, repo, nf):
                 if a in transformed:
                     continue  # decided (or declared undecidable) with the transformation
                 ck.need(a in init_vals, f"{cq}: `{a}` rebuilt in __setstate__ but never set in __init__")
+                oko = in_order(v, i)
                 if not _is_dynamic_class(init_vals[a][0]) and not _is_dynamic_class(v):
                     # a derived value (cache) that is dropped from the pickled state and recomputed from the restored attributes: whether
                     # the recomputed value equals the one at save time is a question about the class's invariants, not decided here
                     if ast.unparse(_unwrap_iter(v)) == ast.unparse(_unwrap_iter(init_vals[a][0])):
-                        ck.ob("R1-pickling-symmetry", cq, f"rebuilt:{a}", restored_at is not None and i > restored_at, f"self.{a} = {short(v, 60)} as in __init__", "" if restored_at is not None and i > restored_at else "the attribute is rebuilt from self.* before the pickled attributes are restored", loc(omi, x))
+                        ck.ob("R1-pickling-symmetry", cq, f"rebuilt:{a}", oko, f"self.{a} = {short(v, 60)} as in __init__", "" if oko else "the attribute is rebuilt from self.* before the pickled attributes are restored", loc(omi, x))
                         continue
                     raise AnalysisError(f"{cq}: `{a}` is dropped from the pickled state and recomputed as `{short(v, 50)}` (a derived value; __init__ sets `{short(init_vals[a][0], 30)}`): equality with the saved value is not decided")
-                got = nf.poly(_unwrap_iter(v), Scope(None, omi, {}, cq), None).canon()
-                want = nf.poly(_unwrap_iter(init_vals[a][0]), Scope(None, init_vals[a][1], {}, cq), None).canon()
+                gotp = nf.poly(_unwrap_iter(v), Scope(None, omi, {}, cq), None)
+                wantp = nf.poly(_unwrap_iter(init_vals[a][0]), Scope(None, init_vals[a][1], {}, cq), None)
+                got, want = gotp.canon(), wantp.canon()
                 okv = got == want
-                oko = restored_at is not None and i > restored_at
                 if not okv:
-                    # a difference is evidence only when both sides are read completely: built from self.* and literals
+                    # a difference is evidence only when both sides are read completely (built from self.* and literals) and the rebuilt value
+                    # uses the ingredients of the constructor's, at most reordered (sorted / reversed): another spelling is not a difference
                     free = {n_.id for e_ in (_unwrap_iter(v), _unwrap_iter(init_vals[a][0])) for n_ in ast.walk(e_) if isinstance(n_, ast.Name)} - {"self", "namedtuple", "collections", "list", "tuple", "sorted", "reversed", "dict"}
                     if free:
                         raise AnalysisError(f"{cq}: `{a}` is rebuilt as `{short(v, 50)}` and created as `{short(init_vals[a][0], 50)}`: the names {sorted(free)[:3]} are not read (unrecognised form)")
+                    if "⟦" in got + want or "φ(" in got + want or not same_ingredients(gotp, wantp, ("sorted", "reversed")):
+                        raise AnalysisError(f"{cq}: `{a}` is rebuilt as `{short(v, 50)}` and created as `{short(init_vals[a][0], 50)}`: not the same ingredients, equality is not decided (unrecognised form)")
                 ck.ob("R1-pickling-symmetry", cq, f"rebuilt:{a}", okv and oko, f"self.{a} = {short(v, 60)} ({'after' if oko else 'before'} the dict is restored); __init__: {short(init_vals[a][0], 60)}",
                       "" if okv and oko else ("the rebuilt attribute differs from the one __init__ creates (field order / names of the batch type change after reload)" if not okv else "the attribute is rebuilt from self.* before the pickled attributes are restored"), loc(omi, x))
             else:
+                if dotted(_strip_identity(v)) == f"self.{a}" or nf.poly(v, Scope(None, omi, {}, cq), None).canon() == f"self.{a}":
+                    continue      # self.a = np.asarray(self.a): the restored value is kept
                 cache = _is_lazy_cache(repo, cq, a)
                 same_as_init = a in init_vals and ast.unparse(init_vals[a][0]) == ast.unparse(v)
                 ok = cache and same_as_init
+                if cache and not same_as_init:
+                    raise AnalysisError(f"{cq}: __setstate__ sets the lazily recomputed `{a}` to `{short(v, 40)}`, not to its constructor value: equality with the saved value is not decided (unrecognised form)")
+                if not cache and not _state_evidence(repo, cq, a):
+                    raise AnalysisError(f"{cq}: __setstate__ assigns `{a}` (`{short(v, 40)}`): neither a lazily recomputed cache nor recognisably state of the buffer (unrecognised form)")
                 ck.ob("R1-pickling-symmetry", cq, f"setstate-write:{a}", ok, f"self.{a} = {short(v, 50)}" + (" (lazily recomputed cache reset to its constructor value)" if ok else ""),
                       "" if ok else f"__setstate__ overwrites `{a}`, which was saved: the reloaded object differs from the saved one", loc(omi, x))
     for cq in classes:
@@ -446,59 +757,199 @@ def r1_buffers(ck, repo, nf):
 
 
 # ---------------------------------------------------------------------------------------------------------------------------
-def _state_kind(cfg, at, e, model_names, depth=0):
-    """('full', model) | ('filtered', text) | ('unknown', text) for an expression that should denote the state of a module."""
+SPLIT = ("nnx.split", "flax.nnx.split")
+STATE = ("nnx.state", "flax.nnx.state")
+MERGE = ("nnx.merge", "flax.nnx.merge")
+STRICT_FILTERS = tuple(p_ + n_ for p_ in ("nnx.", "flax.nnx.") for n_ in ("Param", "BatchStat", "RngState", "RngKey", "RngCount", "Cache", "Intermediate", "LoRAParam"))
+TREE_MAPS = ("jax.tree.map", "jax.tree_util.tree_map", "jax.tree_map")
+
+
+def _root_name(cfg, at, e, depth=0):
+    """The parameter name / attribute chain an expression denotes when followed through plain copies (`m = model`); None when it is anything else."""
     if depth > 6:
-        return ("unknown", "depth")
+        return None
     if isinstance(e, ast.Name):
         ds = cfg.defs_of(at, e.id)
         if not ds:
-            return ("unknown", e.id)
-        kinds = []
+            return None
+        if all(d.kind == "param" for d in ds):
+            return e.id
+        roots = set()
+        for d in ds:
+            if d.kind == "assign" and isinstance(d.value, (ast.Name, ast.Attribute)):
+                roots.add(_root_name(cfg, d.node, d.value, depth + 1))
+            else:
+                return None
+        return roots.pop() if len(roots) == 1 else None
+    if isinstance(e, ast.Attribute):
+        return dotted(e)
+    return None
+
+
+def _catch_all(a):
+    return (isinstance(a, ast.Constant) and (a.value is Ellipsis or a.value is True)) or dotted(a) in ("nnx.Variable", "flax.nnx.Variable")
+
+
+def _split_part(c, pos, n_targets):
+    """What element `pos` of nnx.split(model, *filters) is: 'graphdef' | 'full' | 'filtered' | None (not read)."""
+    if c.keywords or any(isinstance(a, ast.Starred) for a in c.args) or not c.args:
+        return None
+    filters = c.args[1:]
+    n = 1 + max(len(filters), 1)         # graphdef + one state per filter
+    if n_targets is not None and n_targets != n:
+        return None
+    if pos is None or not isinstance(pos, int):
+        return None
+    if pos < 0:
+        pos += n
+    if pos == 0:
+        return "graphdef"
+    if not 1 <= pos < n:
+        return None
+    if not filters or (len(filters) == 1 and _catch_all(filters[0])):
+        return "full"
+    if dotted(filters[pos - 1]) in STRICT_FILTERS:
+        return "filtered"            # the variables of one type only
+    if any(dotted(f_) in STRICT_FILTERS for f_ in filters[:pos - 1]):
+        return "filtered"            # what the earlier filters left over
+    return None
+
+
+def _passthrough(repo, mi, fexpr):
+    """(function, parameter name) when the repo function only moves one of its parameters to a device: every return is jax.device_put(<parameter>, ...) or the parameter itself."""
+    if repo is None or mi is None:
+        return None
+    r = repo.resolve_expr(mi, fexpr)
+    if not r or not repo.has(r):
+        return None
+    try:
+        f = repo.func(r)
+    except AnalysisError:
+        return None
+    names = set()
+    for rt in (n for n in ast.walk(f) if isinstance(n, ast.Return)):
+        v = rt.value
+        if isinstance(v, ast.Call) and dotted(v.func) == "jax.device_put" and v.args and isinstance(v.args[0], ast.Name) and v.args[0].id in positional_params(f):
+            names.add(v.args[0].id)
+        elif isinstance(v, ast.Name) and v.id in positional_params(f):
+            names.add(v.id)        # `if device is None: return state`
+        else:
+            return None
+    if len(names) != 1:
+        return None
+    nm = names.pop()
+    if any(isinstance(n, ast.Name) and n.id == nm and isinstance(n.ctx, ast.Store) for n in ast.walk(f)):
+        return None
+    return f, nm
+
+
+def _kinds(cfg, at, e, ctx=None, depth=0, structural=False):
+    """Set of what an expression that should denote (part of) a module can be along the reaching definitions:
+    ('full', model) | ('graphdef', model) | ('param', name) | ('filtered', text) | ('loaded', text) | ('restored', call) | ('unknown', text)."""
+    if depth > 8 or e is None:
+        return [("unknown", "depth")]
+    if isinstance(e, ast.Name):
+        ds = cfg.defs_of(at, e.id)
+        if not ds:
+            return [("unknown", e.id)]
+        if all(d.kind == "param" for d in ds):
+            return [("param", e.id)]
+        out = []
         for d in ds:
             if d.kind == "assign" and d.value is not None:
-                kinds.append(_state_kind(cfg, d.node, d.value, model_names, depth + 1))
-            elif d.kind == "unpack" and isinstance(d.value, ast.Call) and dotted(d.value.func) in ("nnx.split", "flax.nnx.split"):
+                ks = _kinds(cfg, d.node, d.value, ctx, depth + 1, structural)
+            elif d.kind == "unpack" and isinstance(d.value, ast.Call) and dotted(d.value.func) in SPLIT and len(d.path) == 1:
                 c = d.value
-                n_targets = len(cfg.nodes[d.node].ast.targets[0].elts) if isinstance(cfg.nodes[d.node].ast, ast.Assign) and isinstance(cfg.nodes[d.node].ast.targets[0], ast.Tuple) else 0
-                if len(c.args) == 1 and not c.keywords and d.path in ((1,), (-1,)) and n_targets == 2:
-                    kinds.append(("full", dotted(c.args[0])))
-                elif d.path == (0,):
-                    kinds.append(("graphdef", dotted(c.args[0])))
+                st = cfg.nodes[d.node].ast
+                tg = st.targets[0] if isinstance(st, ast.Assign) and len(st.targets) == 1 and isinstance(st.targets[0], (ast.Tuple, ast.List)) else None
+                starred = tg is None or any(isinstance(x_, ast.Starred) for x_ in tg.elts)
+                part = None if starred else _split_part(c, d.path[0], len(tg.elts))
+                root = _root_name(cfg, d.node, c.args[0]) if c.args else None
+                if part is None or (part in ("full", "graphdef") and root is None):
+                    ks = [("unknown", short(c, 60))]
+                elif part == "filtered":
+                    ks = [("filtered", short(c, 60))]
                 else:
-                    kinds.append(("filtered", short(c, 60)))
+                    ks = [(part, root)]
             else:
-                kinds.append(("unknown", e.id))
-        if len(set(kinds)) == 1:
-            return kinds[0]
-        for k in kinds:
-            if k[0] != "full":
-                return k
-        return kinds[0]
+                ks = [("unknown", e.id)]
+            out += [k for k in ks if k not in out]
+        return out
     if isinstance(e, ast.Call):
         f = dotted(e.func)
-        if f in ("nnx.state", "flax.nnx.state"):
-            if len(e.args) == 1 and not e.keywords:
-                return ("full", dotted(e.args[0]))
-            return ("filtered", short(e, 60))
-        if f in ("nnx.graphdef", "flax.nnx.graphdef") and len(e.args) == 1:
-            return ("graphdef", dotted(e.args[0]))
-        if f in ("_put_on_device", "jax.device_put") and e.args:
-            return _state_kind(cfg, at, e.args[0], model_names, depth + 1)
-        if f in ("pickle.load",):
-            return ("loaded", short(e, 40))
+        plain = not e.keywords and not any(isinstance(a, ast.Starred) for a in e.args)
+        if f in STATE and plain and e.args:
+            root = _root_name(cfg, at, e.args[0])
+            filters = e.args[1:]
+            if not filters or (len(filters) == 1 and _catch_all(filters[0])):
+                return [("full", root)] if root else [("unknown", short(e, 60))]
+            if len(filters) == 1 and dotted(filters[0]) in STRICT_FILTERS:
+                return [("filtered", short(e, 60))]
+            return [("unknown", short(e, 60))]
+        if f in ("nnx.graphdef", "flax.nnx.graphdef") and plain and len(e.args) == 1:
+            root = _root_name(cfg, at, e.args[0])
+            return [("graphdef", root)] if root else [("unknown", short(e, 60))]
+        if f == "jax.device_put" and e.args and not isinstance(e.args[0], ast.Starred):
+            return _kinds(cfg, at, e.args[0], ctx, depth + 1, structural)
+        if structural and f in TREE_MAPS and plain and len(e.args) == 2:
+            return _kinds(cfg, at, e.args[1], ctx, depth + 1, structural)      # same tree structure, which is all a restore target is used for
+        if f in ("pickle.load", "pickle.loads"):
+            return [("loaded", short(e, 40))]
         if isinstance(e.func, ast.Attribute) and e.func.attr == "restore":
-            return ("restored", e)
-    if isinstance(e, ast.Subscript) and isinstance(e.value, ast.Call) and dotted(e.value.func) in ("nnx.split", "flax.nnx.split") and isinstance(e.slice, ast.Constant):
+            return [("restored", e)]
+        pt = _passthrough(ctx[0], ctx[1], e.func) if ctx and isinstance(e.func, (ast.Name, ast.Attribute)) else None
+        if pt is not None and plain or (pt is not None and all(k.arg for k in e.keywords) and not any(isinstance(a, ast.Starred) for a in e.args)):
+            from ..repo import bind_call
+            arg = bind_call(pt[0], e).get(pt[1])
+            if arg is not None:
+                return _kinds(cfg, at, arg, ctx, depth + 1, structural)
+    if isinstance(e, ast.Subscript) and isinstance(e.value, ast.Call) and dotted(e.value.func) in SPLIT and isinstance(e.slice, ast.Constant):
         c = e.value
-        if len(c.args) == 1 and not c.keywords and e.slice.value in (1, -1):
-            return ("full", dotted(c.args[0]))
-        return ("filtered", short(c, 60))
-    return ("unknown", short(e, 60))
+        part = _split_part(c, e.slice.value, None)
+        root = _root_name(cfg, at, c.args[0]) if c.args else None
+        if part == "filtered":
+            return [("filtered", short(c, 60))]
+        if part in ("full", "graphdef") and root:
+            return [(part, root)]
+        return [("unknown", short(e, 60))]
+    return [("unknown", short(e, 60))]
+
+
+def _judge(where, kinds, good, params):
+    """(ok, kind shown).  ok needs every reaching value to be `good`; a violation needs one that is read and is something else
+    (a state of / graphdef of something that is not a parameter of the function is not read); otherwise the analysis is undecided."""
+    def unread(k):
+        return k[0] == "unknown" or (k[0] in ("full", "graphdef") and k[1] not in params) or (k[0] == "param" and k[1] not in params)
+    bad = [k for k in kinds if not good(k) and not unread(k)]
+    if bad:
+        return False, bad[0]
+    unk = [k for k in kinds if not good(k)]
+    if unk:
+        raise AnalysisError(f"{where}: provenance of `{unk[0][1] if isinstance(unk[0][1], str) else short(unk[0][1], 40)}` not recognised (unrecognised form)")
+    return True, kinds[0]
+
+
+def _ktxt(k):
+    return f"{k[0]}" + (f" of `{k[1]}`" if k[0] in ("full", "graphdef") and isinstance(k[1], str) else (f" `{k[1]}`" if k[0] == "param" else ""))
 
 
 def _calls(cfg, pred):
     return [(n, c) for n in cfg.nodes if n.ast is not None and n.kind in ("stmt", "with") for c in ast.walk(n.ast if n.kind == "stmt" else ast.Module(body=[ast.Expr(value=i.context_expr) for i in n.ast.items], type_ignores=[])) if isinstance(c, ast.Call) and pred(c)]
+
+
+def _alias_values(cfg, at, e, where, depth=0):
+    """(node, expression) pairs a value can come from, names followed through their (plain) assignments."""
+    if isinstance(e, ast.Name) and depth < 6:
+        ds = cfg.defs_of(at, e.id)
+        if ds and all(d.kind == "assign" and d.value is not None for d in ds):
+            out = []
+            for d in ds:
+                out += _alias_values(cfg, d.node, d.value, where, depth + 1)
+            return out
+        if ds and all(d.kind == "param" for d in ds):
+            return [(at, e)]
+        raise AnalysisError(f"{where}: `{e.id}` has a definition this check cannot follow (unrecognised form)")
+    return [(at, e)]
 
 
 def r2_pickle_helper(ck, repo, nf):
@@ -506,102 +957,146 @@ def r2_pickle_helper(ck, repo, nf):
     fn = repo.func(q)
     mi = fn._module
     cfg = nf.cfg_of(fn)
+    ctx = (repo, mi)
     dumps = _calls(cfg, lambda c: dotted(c.func) == "pickle.dump")
     ck.need(len(dumps) >= 1, f"{q}: no pickle.dump call (anchor vanished)")
-    netp = positional_params(fn)[1] if len(positional_params(fn)) > 1 else "net"
+    ck.need(len(positional_params(fn)) > 1, f"{q}: signature changed (anchor vanished)")
+    netp = positional_params(fn)[1]
+    params = set(param_names(fn))
     for n, c in dumps:
-        kind = _state_kind(cfg, n.id, c.args[0], {netp}) if c.args else ("unknown", "")
-        ok = kind == ("full", netp)
-        if kind[0] == "unknown":
-            raise AnalysisError(f"{q}: provenance of the dumped object `{kind[1]}` not recognised")
-        ck.ob("R2-pickle-helper", q, "dumps-state", ok, f"pickle.dump({short(c.args[0])}, ..) <- {kind[0]} state of `{kind[1] if isinstance(kind[1], str) else ''}`",
-              "" if ok else ("only part of the module state is saved (filtered split): the remaining variables are lost on reload" if kind[0] == "filtered" else f"the dumped object is the {kind[0]} of the module, not its state"), loc(mi, c))
-        p = cfg.paths_avoiding(cfg.entry, cfg.exit, {n.id})
-        ck.ob("R2-pickle-helper", q, "dump-on-every-path", p is None, "every path through save_pickle dumps", "" if p is None else "a path returns without writing the file", loc(mi, c), cfg.describe_path(p) if p else None)
+        obj = arg_of(c, 0, "obj")
+        ck.need(obj is not None, f"{q}: `{short(c, 50)}`: dumped object not found (unrecognised form)")
+        ok, kind = _judge(q, _kinds(cfg, n.id, obj, ctx), lambda k: k == ("full", netp), params)
+        ck.ob("R2-pickle-helper", q, "dumps-state", ok, f"pickle.dump({short(obj)}, ..) <- {_ktxt(kind)}",
+              "" if ok else ("only part of the module state is saved (filtered split): the remaining variables are lost on reload" if kind[0] == "filtered" else f"the dumped object is the {_ktxt(kind)}, not the state of the given module"), loc(mi, c))
+    p = cfg.paths_avoiding(cfg.entry, cfg.exit, {n.id for n, _ in dumps})
+    ck.ob("R2-pickle-helper", q, "dump-on-every-path", p is None, "every path through save_pickle dumps", "" if p is None else "a path returns without writing the file", loc(mi, dumps[0][1]), cfg.describe_path(p) if p else None)
     q = "rl_blox.util.serialize.load_pickle"
     fn = repo.func(q)
+    mi = fn._module
     cfg = nf.cfg_of(fn)
-    gparam = positional_params(fn)[1] if len(positional_params(fn)) > 1 else "graphdef"
+    ctx = (repo, mi)
+    ck.need(len(positional_params(fn)) > 1, f"{q}: signature changed (anchor vanished)")
+    gparam = positional_params(fn)[1]
+    params = set(param_names(fn))
     rets = [n for n in cfg.nodes if n.kind == "stmt" and isinstance(n.ast, ast.Return)]
     ck.need(rets, f"{q}: no return")
     for r in rets:
-        v = r.ast.value
-        cands = []
-        if isinstance(v, ast.Name):
-            cands = [(d.node, d.value) for d in cfg.defs_of(r.id, v.id) if d.kind == "assign"]
-            ck.need(len(cands) == len(cfg.defs_of(r.id, v.id)), f"{q}: returned value has a definition this check cannot follow")
-        else:
-            cands = [(r.id, v)]
-        for at, e in cands:
-            okm = isinstance(e, ast.Call) and dotted(e.func) in ("nnx.merge", "flax.nnx.merge") and len(e.args) == 2 and dotted(e.args[0]) == gparam
-            kind = _state_kind(cfg, at, e.args[1], set()) if okm else ("unknown", "")
-            ok = okm and kind[0] == "loaded"
-            ck.ob("R2-pickle-helper", q, f"merge:{'device' if cfg.control_deps(at) and any(lab is True for _, lab in cfg.control_deps(at)) else 'default'}-branch", ok,
-                  f"return <- {short(e, 60)}; state <- {kind[0]}", "" if ok else "the returned module must be nnx.merge(<given graphdef>, <state loaded from the file>) on every branch", loc(mi, e))
+        ck.need(r.ast.value is not None, f"{q}: a bare return (unrecognised form)")
+        for at, e in _alias_values(cfg, r.id, r.ast.value, q):
+            key = f"merge:{'device' if cfg.control_deps(at) and any(lab is True for _, lab in cfg.control_deps(at)) else 'default'}-branch"
+            if isinstance(e, ast.Call) and dotted(e.func) in MERGE and len(e.args) >= 2 and not e.keywords and not any(isinstance(a, ast.Starred) for a in e.args):
+                okg, kg = _judge(q, _kinds(cfg, at, e.args[0], ctx), lambda k: k == ("param", gparam), params)
+                oks, ksts = True, []
+                for s_ in e.args[1:]:
+                    o_, k_ = _judge(q, _kinds(cfg, at, s_, ctx), lambda k: k[0] == "loaded", params)
+                    oks = oks and o_
+                    ksts.append(k_)
+                ok = okg and oks
+                ck.ob("R2-pickle-helper", q, key, ok, f"return <- {short(e, 60)}; graphdef <- {_ktxt(kg)}; state <- {', '.join(_ktxt(k_) for k_ in ksts)}",
+                      "" if ok else "the returned module must be nnx.merge(<given graphdef>, <state loaded from the file>) on every branch", loc(mi, e))
+            else:
+                # not a merge: a violation when the returned value is read and is something else (the raw loaded state, the graphdef)
+                ok, kind = _judge(q, _kinds(cfg, at, e, ctx), lambda k: False, params)
+                ck.ob("R2-pickle-helper", q, key, False, f"return <- {short(e, 60)} <- {_ktxt(kind)}", "the returned module must be nnx.merge(<given graphdef>, <state loaded from the file>) on every branch", loc(mi, e))
 
 
 def r3_checkpoints(ck, repo, nf):
     writers = [("rl_blox.logging.logger.StandardLogger", "_save_checkpoint"), ("rl_blox.logging.checkpointer.OrbaxCheckpointer", "save_model")]
     for cq, meth in writers:
-        m = repo.method(cq, meth, inherited=False)
+        m = repo.method(cq, meth)
         ck.need(m is not None, f"{cq}.{meth} not found (anchor vanished)")
         fn = m[1]
-        fn._module = repo.cls(cq)._module
+        fn._module = repo.cls(m[0])._module
         mi = fn._module
         cfg = nf.cfg_of(fn)
+        ctx = (repo, mi)
         site = f"{cq}.{meth}"
-        saves = _calls(cfg, lambda c: isinstance(c.func, ast.Attribute) and c.func.attr == "save" and dotted(c.func.value) == "self.checkpointer")
+
+        def on_checkpointer(name):
+            return [(n_, c_) for n_, c_ in _calls(cfg, lambda c: isinstance(c.func, ast.Attribute) and c.func.attr == name) if _root_name(cfg, n_.id, c_.func.value) == "self.checkpointer"]
+        saves = on_checkpointer("save")
         ck.need(len(saves) == 1, f"{site}: expected one self.checkpointer.save call")
         n, c = saves[0]
         pps = [p_ for p_ in param_names(fn) if p_ != "self"]
-        kind = _state_kind(cfg, n.id, c.args[1], set(pps)) if len(c.args) > 1 else ("unknown", "")
-        if kind[0] == "unknown":
-            raise AnalysisError(f"{site}: provenance of the saved object `{kind[1]}` not recognised")
-        ok = kind[0] == "full" and kind[1] in pps
-        modelp = kind[1] if ok else (pps[-1] if pps else "model")
-        ck.ob("R3-checkpoints", site, "saves-full-state", ok, f"save(.., {short(c.args[1])}) <- {kind[0]} state of `{kind[1] if isinstance(kind[1], str) else ''}`",
+        st = arg_of(c, 1, "state")
+        ck.need(st is not None, f"{site}: `{short(c, 50)}`: saved object not found (unrecognised form)")
+        ok, kind = _judge(site, _kinds(cfg, n.id, st, ctx), lambda k: k[0] == "full" and k[1] in pps, set(pps))
+        ck.ob("R3-checkpoints", site, "saves-full-state", ok, f"save(.., {short(st)}) <- {_ktxt(kind)}",
               "" if ok else "the checkpoint must contain the complete module state: a variable filter (e.g. nnx.Param) drops non-parameter variables such as the tanh heads' action_scale / action_bias, which then come from the template on restore", loc(mi, c))
-        waits = _calls(cfg, lambda c: isinstance(c.func, ast.Attribute) and c.func.attr == "wait_until_finished" and dotted(c.func.value) == "self.checkpointer")
-        ok = len(waits) >= 1 and all(cfg.dominates(n.id, w.id) for w, _ in waits) and cfg.paths_avoiding(n.id, cfg.exit, {w.id for w, _ in waits}) is None
-        ck.ob("R3-checkpoints", site, "waits-for-write", ok, "save ; wait_until_finished on every path", "" if ok else "the asynchronous write must be awaited before the method returns / the path is published", loc(mi, c))
+        waits = on_checkpointer("wait_until_finished")
+        p = cfg.paths_avoiding(n.id, cfg.exit, {w.id for w, _ in waits})
+        if p is not None:
+            # a path from the save to the end without the wait: evidence unless the checkpointer is used on it in a way this rule does not read
+            # (another method of it, or handed to a callee), which may wait as well
+            for pid in p[1:-1]:
+                nd = cfg.nodes[pid]
+                if nd.ast is None:
+                    continue
+                src_ = nd.ast.test if nd.kind == "test" and hasattr(nd.ast, "test") else nd.ast
+                for x_ in ast.walk(src_) if nd.kind in ("stmt", "test") else []:
+                    if isinstance(x_, ast.Attribute) and dotted(x_) == "self.checkpointer":
+                        raise AnalysisError(f"{site}: `{short(nd.ast, 50)}` uses the checkpointer after the save in a way this check does not read (unrecognised form)")
+                    if isinstance(x_, ast.Name) and isinstance(x_.ctx, ast.Load) and _root_name(cfg, pid, x_) == "self.checkpointer":
+                        raise AnalysisError(f"{site}: `{short(nd.ast, 50)}` uses the checkpointer after the save in a way this check does not read (unrecognised form)")
+        ck.ob("R3-checkpoints", site, "waits-for-write", p is None, "save ; wait_until_finished on every path", "" if p is None else "the asynchronous write must be awaited before the method returns / the path is published", loc(mi, c), cfg.describe_path(p) if p else None)
     q = "rl_blox.blox.probabilistic_ensemble.restore_checkpoint"
     fn = repo.func(q)
     mi = fn._module
     cfg = nf.cfg_of(fn)
+    ctx = (repo, mi)
+    ck.need(len(positional_params(fn)) >= 2, f"{q}: signature changed (anchor vanished)")
     pathp, modelp = positional_params(fn)[:2]
+    params = set(param_names(fn))
     rets = [n for n in cfg.nodes if n.kind == "stmt" and isinstance(n.ast, ast.Return)]
-    ck.need(len(rets) == 1, f"{q}: expected one return")
-    e = rets[0].ast.value
-    if isinstance(e, ast.Name):
-        ds = cfg.defs_of(rets[0].id, e.id)
-        ck.need(len(ds) == 1 and ds[0].kind == "assign", f"{q}: returned value not a single definition")
-        e, at = ds[0].value, ds[0].node
-    else:
-        at = rets[0].id
-    ck.need(isinstance(e, ast.Call) and dotted(e.func) in ("nnx.merge", "flax.nnx.merge") and e.args, f"{q}: result is not an nnx.merge(...) (unrecognised idiom)")
-    g = _state_kind(cfg, at, e.args[0], {modelp})
-    okg = g == ("graphdef", modelp)
-    ck.ob("R3-checkpoints", q, "merges-own-graphdef", okg, f"merge({short(e.args[0])}, ...) <- {g[0]} of `{g[1] if isinstance(g[1], str) else ''}`", "" if okg else "the restored state must be merged with the graphdef of the given model", loc(mi, e))
+    ck.need(len(rets) == 1 and rets[0].ast.value is not None, f"{q}: expected one return")
+    vals = _alias_values(cfg, rets[0].id, rets[0].ast.value, q)
+    ck.need(len(vals) == 1, f"{q}: returned value not a single definition")
+    at, e = vals[0]
+    ck.need(isinstance(e, ast.Call) and dotted(e.func) in MERGE and len(e.args) >= 2 and not e.keywords and not any(isinstance(a, ast.Starred) for a in e.args), f"{q}: result is not an nnx.merge(graphdef, state..) (unrecognised idiom)")
+    okg, g = _judge(q, _kinds(cfg, at, e.args[0], ctx), lambda k: k == ("graphdef", modelp), params)
+    ck.ob("R3-checkpoints", q, "merges-own-graphdef", okg, f"merge({short(e.args[0])}, ...) <- {_ktxt(g)}", "" if okg else "the restored state must be merged with the graphdef of the given model", loc(mi, e))
     states = e.args[1:]
-    kinds = [_state_kind(cfg, at, s, {modelp}) for s in states]
-    n_rest = [k for k in kinds if k[0] == "restored"]
-    other = [(s, k) for s, k in zip(states, kinds) if k[0] != "restored"]
+    kinds, other = [], []
+    for s_ in states:
+        o_, k_ = _judge(q, _kinds(cfg, at, s_, ctx), lambda k: k[0] == "restored", params)
+        kinds.append(k_)
+        if not o_:
+            other.append((s_, k_))
+    n_rest = []
+    for s_ in states:
+        for k_ in _kinds(cfg, at, s_, ctx):
+            if k_[0] == "restored" and not any(k_[1] is r_[1] for r_ in n_rest):
+                n_rest.append(k_)
     ok = len(n_rest) == 1 and not other
+    ck.need(ok or other, f"{q}: {len(n_rest)} restore calls reach the merge (unrecognised form)")
     ck.ob("R3-checkpoints", q, "state-from-checkpoint-only", ok, f"merge(graphdef, {', '.join(short(s) for s in states)}) <- {[k[0] for k in kinds]}",
           "" if ok else f"part of the returned module's state ({[short(s) for s, _ in other]}) does not come from the checkpoint but from the template model: the reload differs whenever the template differs (e.g. other action bounds)", loc(mi, e))
     for k in n_rest:
         rc = k[1]
-        okp = rc.args and dotted(rc.args[0]) == pathp
-        tgt = rc.args[1] if len(rc.args) > 1 else next((kw.value for kw in rc.keywords if kw.arg in ("target", "item", "args")), None)
-        tk = _state_kind(cfg, cfg.node_of(rc).id, tgt, {modelp}) if tgt is not None else None
-        okt = tk == ("full", modelp)
+        ck.need(all(kw.arg for kw in rc.keywords) and not any(isinstance(a, ast.Starred) for a in rc.args), f"{q}: `{short(rc, 50)}` (unrecognised form)")
+        rat = cfg.node_of(rc).id
+        # the directory: the given path itself; a violation needs a directory that is read and is not derived from the path parameter
+        d_ = arg_of(rc, 0, "directory", "path")
+        ck.need(d_ is not None, f"{q}: `{short(rc, 50)}`: directory not found (unrecognised form)")
+        okp = _root_name(cfg, rat, d_) == pathp
+        if not okp:
+            reads = {n_.id for n_ in ast.walk(d_) if isinstance(n_, ast.Name)}
+            derived = any(_root_name(cfg, rat, ast.Name(id=n_, ctx=ast.Load())) == pathp or not all(dd.kind == "param" for dd in cfg.defs_of(rat, n_)) for n_ in reads)
+            if derived or not (isinstance(d_, ast.Constant) or (isinstance(d_, ast.Name) and d_.id in params)):
+                raise AnalysisError(f"{q}: the restore directory `{short(d_, 40)}` is not the path parameter itself (unrecognised form)")
         ck.ob("R3-checkpoints", q, "restore-from-path", bool(okp), f"{short(rc, 60)}", "" if okp else "must restore from the given path", loc(mi, rc))
+        tgt = arg_of(rc, 1, "target", "item", "args")
         why = ""
         if tgt is None:
+            ck.need(not [kw.arg for kw in rc.keywords if kw.arg not in ("directory", "path", "strict")], f"{q}: `{short(rc, 50)}`: options this check does not read (unrecognised form)")
+            okt, tk = False, None
             why = ("untargeted restore returns nested dicts with *string* keys; nnx.merge consumes the leaves in sorted key order, so list entries beyond ten ('10' < '2') are assigned to the wrong, "
                    "equally shaped layers: the reloaded network computes a different function")
-        elif not okt:
-            why = f"the restore target is not the complete state of the model ({tk[0] if tk else '?'}): only part of the saved state is read back"
+        else:
+            okt, tk = _judge(q, _kinds(cfg, rat, tgt, ctx, structural=True), lambda k: k == ("full", modelp), params)
+            if not okt:
+                why = f"the restore target is not the complete state of the model ({_ktxt(tk)}): only part of the saved state is read back"
         ck.ob("R3-checkpoints", q, "restore-into-model-structure", okt, f"target = {short(tgt, 50) if tgt is not None else None}", why, loc(mi, rc))
 
 
@@ -633,6 +1128,13 @@ MUTANTS = [
     {"id": "c19-orbax-no-wait", "file": "rl_blox/logging/checkpointer.py", "rule": "R3", "find": "        self.checkpointer.save(path, state)\n        self.checkpointer.wait_until_finished()", "replace": "        self.checkpointer.save(path, state)"},
     {"id": "c19-restore-own-state", "file": _PE, "rule": "R3", "find": "    state = checkpointer.restore(path, target_state)\n    return nnx.merge(graphdef, state)", "replace": "    state = checkpointer.restore(path, target_state)\n    return nnx.merge(graphdef, target_state)"},
     {"id": "c19-restore-untargeted", "file": _PE, "rule": "R3", "find": "    state = checkpointer.restore(path, target_state)", "replace": "    state = checkpointer.restore(path)"},
+    {"id": "c19-priority-buffer-lambda", "file": _F, "rule": "R1", "find": "        self.sampled_indices = np.empty(0, dtype=int)\n", "replace": "        self.sampled_indices = np.empty(0, dtype=int)\n        self.reduce = lambda p: np.max(p)\n"},
+    {"id": "c19-setstate-removed", "file": _F, "rule": "R1", "nth": 0, "find": "    def __setstate__(self, d):\n        self.__dict__.update(d)\n        self.Batch = namedtuple(\"Batch\", self.buffer)\n", "replace": ""},
+    {"id": "c19-load-merges-state-twice", "file": _S, "rule": "R2", "all": True, "find": "net = nnx.merge(graphdef, state)", "replace": "net = nnx.merge(state, state)"},
+    {"id": "c19-save-one-branch-only", "file": _S, "rule": "R2", "find": "    with open(filename, \"wb\") as f:\n        pickle.dump(state, f)", "replace": "    if move_to_device is not None:\n        with open(filename, \"wb\") as f:\n            pickle.dump(state, f)"},
+    {"id": "c19-orbax-wait-before-save", "file": "rl_blox/logging/checkpointer.py", "rule": "R3", "find": "        self.checkpointer.save(path, state)\n        self.checkpointer.wait_until_finished()", "replace": "        self.checkpointer.wait_until_finished()\n        self.checkpointer.save(path, state)"},
+    {"id": "c19-restore-merges-state-as-graphdef", "file": _PE, "rule": "R3", "find": "    return nnx.merge(graphdef, state)", "replace": "    return nnx.merge(target_state, state)"},
+    {"id": "c19-restore-fixed-directory", "file": _PE, "rule": "R3", "find": "    state = checkpointer.restore(path, target_state)", "replace": "    state = checkpointer.restore(\"/tmp/checkpoint\", target_state)"},
     {"id": "c19-restore-params-rest-from-template", "file": _PE, "rule": "R3", "find": "    graphdef, target_state = nnx.split(model)\n    state = checkpointer.restore(path, target_state)\n    return nnx.merge(graphdef, state)",
      "replace": "    graphdef, params, rest = nnx.split(model, nnx.Param, ...)\n    params = checkpointer.restore(path, params)\n    return nnx.merge(graphdef, params, rest)"},
 ]
@@ -641,5 +1143,24 @@ BENIGN = [
     {"id": "c19-b-getstate-copy-method", "file": _F, "nth": 1, "find": "        d = dict(self.__dict__)\n        del d[\"Batch\"]\n        return d", "replace": "        state = self.__dict__.copy()\n        del state[\"Batch\"]\n        return state"},
     {"id": "c19-b-save-state-call", "file": _S, "find": "    graphdef, state = nnx.split(net)", "replace": "    state = nnx.state(net)"},
     {"id": "c19-b-orbax-split", "file": "rl_blox/logging/checkpointer.py", "find": "        state = nnx.state(model)", "replace": "        _, state = nnx.split(model)"},
+    {"id": "c19-b-getstate-dictcomp", "file": _F, "nth": 0, "find": "        d = dict(self.__dict__)\n        del d[\"Batch\"]\n        return d", "replace": "        return {k: v for k, v in self.__dict__.items() if k != \"Batch\"}"},
+    {"id": "c19-b-getstate-module-constant-key-logging", "file": _F, "edits": [
+        ("import copy\n", "import copy\nimport logging\n"), ("import numpy as np\n", "import numpy as np\n\n_log = logging.getLogger(__name__)\n_DERIVED = \"Batch\"\n"),
+        ("        d = dict(self.__dict__)\n        del d[\"Batch\"]\n        return d\n\n    def __setstate__(self, d):\n        self.__dict__.update(d)\n        self.Batch = namedtuple(\"Batch\", self.buffer)\n\n\nclass SubtrajectoryReplayBuffer:",
+         "        d = {**vars(self)}\n        d.pop(_DERIVED)\n        if _log.isEnabledFor(logging.DEBUG):\n            _log.debug(\"saving %s transitions\", d.get(\"current_len\"))\n        return d\n\n    def __setstate__(self, d):\n        self.__dict__.update(d)\n        self.Batch = namedtuple(\"Batch\", self.buffer)\n\n\nclass SubtrajectoryReplayBuffer:")]},
+    {"id": "c19-b-logger-alias-ellipsis-keywords", "file": "rl_blox/logging/logger.py", "find": "        _, state = nnx.split(value)\n        self.checkpointer.save(f\"{checkpoint_path}\", state)", "replace": "        model = value\n        state = nnx.split(model, ...)[1]\n        self.checkpointer.save(directory=checkpoint_path, state=state)"},
+    {"id": "c19-b-namedtuple-keywords", "file": _F, "nth": 0, "find": "        self.__dict__.update(d)\n        self.Batch = namedtuple(\"Batch\", self.buffer)", "replace": "        assert isinstance(d, dict)\n        self.__dict__ |= d\n        self.Batch = namedtuple(typename=\"Batch\", field_names=list(self.buffer.keys()), rename=False)"},
+    {"id": "c19-b-setstate-logging-explicit-base", "file": _F, "edits": [
+        ("import copy\n", "import copy\nimport logging\n"), ("import numpy as np\n", "import numpy as np\n\n_log = logging.getLogger(__name__)\n"),
+        ("    def reset_max_priority(self):\n        self.priority.reset_max_priority(self.current_len)\n\nclass PrioritizedReplayBuffer(LAP):",
+         "    def reset_max_priority(self):\n        self.priority.reset_max_priority(self.current_len)\n\n    def __setstate__(self, state):\n        ReplayBuffer.__setstate__(self, state)\n        _log.debug(\"restored %s of %s transitions\", state.get(\"current_len\"), self.buffer_size)\n\nclass PrioritizedReplayBuffer(LAP):")]},
+    {"id": "c19-b-save-alias-keywords-two-dumps", "file": _S, "find": "    graphdef, state = nnx.split(net)\n\n    if move_to_device is not None:\n        state = _put_on_device(state, move_to_device)\n\n    with open(filename, \"wb\") as f:\n        pickle.dump(state, f)",
+     "replace": "    module = net\n    _, state = nnx.split(module, ...)\n\n    if move_to_device is not None:\n        with open(filename, \"wb\") as f:\n            pickle.dump(obj=_put_on_device(move_to_device=move_to_device, state=state), file=f)\n    else:\n        with open(filename, \"wb\") as f:\n            pickle.dump(state, file=f)"},
+    {"id": "c19-b-load-alias-graphdef", "file": _S, "all": True, "find": "                net = nnx.merge(graphdef, state)", "replace": "                gd = graphdef\n                net = nnx.merge(gd, jax.device_put(state))"},
+    {"id": "c19-b-orbax-mixin-alias-wait-first", "file": "rl_blox/logging/checkpointer.py", "edits": [
+        ("class OrbaxCheckpointer(LoggerBase):", "class _ModelWriter:\n    def save_model(self, path: str, model: nnx.Module):\n        writer = self.checkpointer\n        writer.wait_until_finished()\n        net = model\n        writer.save(path, state=nnx.state(net, ...))\n        writer.wait_until_finished()\n\n\nclass OrbaxCheckpointer(_ModelWriter, LoggerBase):"),
+        ("    def save_model(self, path: str, model: nnx.Module):\n        \"\"\"Save model with Orbax.\n\n        Parameters\n        ----------\n        path : str\n            Full path to model.\n\n        model : nnx.Module\n            Function approximator to be stored.\n        \"\"\"\n        state = nnx.state(model)\n        self.checkpointer.save(path, state)\n        self.checkpointer.wait_until_finished()\n", "")]},
+    {"id": "c19-b-restore-keywords-abstract-target", "file": _PE, "find": "    graphdef, target_state = nnx.split(model)\n    state = checkpointer.restore(path, target_state)\n    return nnx.merge(graphdef, state)",
+     "replace": "    template = model\n    graphdef, target_state = nnx.split(template)\n    abstract = jax.tree.map(ocp.utils.to_shape_dtype_struct, target_state)\n    directory = path\n    state = checkpointer.restore(directory=directory, target=abstract)\n    restored = nnx.merge(graphdef, state)\n    return restored"},
     {"id": "c19-b-restore-state-call", "file": _PE, "find": "    graphdef, target_state = nnx.split(model)\n    state = checkpointer.restore(path, target_state)", "replace": "    graphdef = nnx.graphdef(model)\n    state = checkpointer.restore(path, nnx.state(model))"},
 ]
